@@ -8,6 +8,11 @@ func init() {
 			"(PART) Trip.update partitions the trip's current list against this update's stop time updates; entries before the first updated stop are only marked past; every aligned entry is refreshed by StopTime.update on every path; the list is trimmed to len(past)+len(updated); the remaining updates are appended at the tail in order; between createPartition and the end of the mark / refresh loops the list is not given another backing array (the partition points into it); in the pairing loop of createPartition the outcome `stop ids differ` leaves the loop; createPartition searches the update's first stop in the whole list by stop id only, past is the prefix before it, aligned pairs point into the journal's own list, new is the tail of the updates. " +
 			"These are the places where each clause of the property is implemented; breaking one breaks the behaviour, but their conjunction is not claimed to imply it.",
 		Rules: []Rule{
+			{Name: "ACCT", Doc: "an update is applied unless the trip is assigned and the update carries no vehicle (tested on the vehicle itself); the stop times of an applied update are always processed", MinInstances: 1, Run: func(c *Ctx) {
+				if tu := c.anchor("journal:(*Trip).update"); tu != nil {
+					runTripUpdateShape(c, tu, newBinder(c))
+				}
+			}},
 			{Name: "SCAN", Doc: "a loop that does something for each element is not left early (no break out of a processing loop)", MinInstances: 1, Run: func(c *Ctx) { runFullScan(c, journalFns(c), "SCAN") }},
 			{Name: "JST", Doc: "journal stop times: mark-once, update coverage, partition application", MinInstances: 9, Run: runJournalStopTimes},
 		},
